@@ -132,6 +132,10 @@ end Json
 
 /-! ## Text utilities -/
 
+/-- byte length of the UTF-8 encoding (what Go's `len` of a string is) -/
+def utf8Len (s : String) : Nat := s.toList.foldl (fun a c => a + c.utf8Size) 0
+
+
 def hexDigit (n : Nat) : Char :=
   if n < 10 then Char.ofNat (48 + n) else Char.ofNat (87 + n)
 
